@@ -161,6 +161,21 @@ def check(ctx, rep):
     codes = [c for _, c in sorted(order)]
     rep.ob('allocate.errors', 'Duplicate definition, then IFC for negative bounds, then Subscript out of range below base',
            codes == ['DUPLICATE_DEFINITION', 'ILLEGAL_FUNCTION_CALL', 'SUBSCRIPT_OUT_OF_RANGE'], repr(codes), ctx.where(al))
+    # each bound is tested on its own: one bound below the base (or negative) is enough to refuse the DIM
+    for code, cond in (('ILLEGAL_FUNCTION_CALL', '_d < 0'), ('SUBSCRIPT_OUT_OF_RANGE', '_d < self._base')):
+        rs = [r for r, c in ctx.raises_in(al) if c == code]
+        tests = [f.text for r in rs for f in fl.facts(r) if f.pol and cond in f.text]
+        rep.ob('allocate.every-bound-tested', 'allocate: %s if ANY bound has %s' % (code, cond),
+               tests == ['any((%s for _d in dimensions))' % cond] or tests == ['any(%s for _d in dimensions)' % cond], repr(tests), ctx.where(al))
+    # every element access of the public accessors goes through view_buffer (and so through check_dim: bounds, auto-dimension)
+    for meth in ('get', 'set'):
+        m = ctx.fn(A + ':Arrays.' + meth)
+        vcalls = [c for c in own_nodes(m) if isinstance(c, ast.Call) and norm(c) == 'self.view_buffer(name, index)']
+        rets = [r for r in own_nodes(m) if isinstance(r, ast.Return) and r.value is not None]
+        ok = len(vcalls) == 1 and all(any(x is vcalls[0] for x in ast.walk(r.value)) for r in rets) and (meth == 'set' or len(rets) >= 1)
+        rep.ob('accessors.through-view-buffer', 'Arrays.%s reaches the element only through view_buffer(name, index)' % meth, ok,
+               'a result that does not come from view_buffer skips check_dim: an undeclared array is not dimensioned on first use and subscripts are not checked (%s)'
+               % [short(r, 50) for r in rets], ctx.where(m))
     dup = [r for r, c in ctx.raises_in(al) if c == 'DUPLICATE_DEFINITION']
     rep.ob('allocate.duplicate', 'an existing array cannot be redimensioned', len(dup) == 1 and fl.knows(dup[0], 'name in self._dims', True), '', ctx.where(al))
     cf = [n for n in own_nodes(al) if isinstance(n, ast.Call) and norm(n.func) == 'self._memory.check_free']
@@ -231,6 +246,10 @@ def variants(ctx):
            in_fn('Arrays.check_dim', lambda fn: mu.replace_expr(fn, mu.text_is('i < self._base or i > d'), 'i > d')), expect='bounds.pass-set'),
         Va('rank-unchecked', 'break', A,
            in_fn('Arrays.check_dim', lambda fn: mu.remove_stmt(fn, mu.stmt_has('len(index) != len(dimensions)', ast.If))), expect='bounds.rank'),
+        Va('allocate-refuses-only-if-all-bounds-below-base', 'break', A,
+           in_fn('Arrays.allocate', lambda fn: mu.replace_expr(fn, mu.text_is('any(_d < self._base for _d in dimensions)'), 'all(_d < self._base for _d in dimensions)')), expect='allocate.every-bound-tested'),
+        Va('get-of-undeclared-array-returns-null', 'break', A,
+           in_fn('Arrays.get', lambda fn: mu.insert_first(fn, "if name not in self._dims:\n    return self._values.new(name[-1:])")), expect='accessors.through-view-buffer'),
         Va('auto-dim-11', 'break', A,
            in_fn('Arrays.check_dim', lambda fn: mu.replace_expr(fn, mu.text_is('[10] * len(index)'), '[11] * len(index)')), expect='auto-dim'),
         Va('radix-too-small', 'break', A,
